@@ -93,7 +93,7 @@ theorem C15_snapshot_consistent (c0 : Cfg) (hne : c0.incoming ≠ [] ∨ c0.outg
     (x y : LEntry) (hx : m.pre[k]? = some x) (hy : l[k]? = some y) (ht : x.term = y.term) :
     m.pre.take (k + 1) = l.take (k + 1) :=
   logMatching_of_invL (invL_reach c0 hne s hr) m.pre l
-    (Or.inr (Or.inr (Or.inr (Or.inr (Or.inr (Or.inl ⟨m, hm, rfl⟩)))))) hl k x y hx hy ht
+    (listsOf_snap s m hm) hl k x y hx hy ht
 
 /-- a released snapshot is a prefix of the ghost log of its term: the state it carries is the state
 of a node that applied the log of that term's leader up to the snapshot index -/
@@ -101,7 +101,7 @@ theorem C15_snapshot_entries_bounded (c0 : Cfg) (hne : c0.incoming ≠ [] ∨ c0
     (hr : ReachC c0 s) (m : Snap) (hm : m ∈ s.snaps) : ∀ e ∈ m.pre, 1 ≤ e.term ∧ e.term ≤ m.term := by
   have I := invL_reach c0 hne s hr
   intro e he
-  have hp : PFL s.llog m.pre := I.pfl _ (Or.inr (Or.inr (Or.inr (Or.inr (Or.inr (Or.inl ⟨m, hm, rfl⟩))))))
+  have hp : PFL s.llog m.pre := I.pfl _ (listsOf_snap s m hm)
   exact ⟨pfl_term_pos I hp he, I.stle m hm e he⟩
 
 /-- the full statement about application state and configuration (needs state-machine safety, C01) -/
@@ -115,9 +115,9 @@ def c3 : Cfg := ⟨[1, 2, 3], []⟩
 def e1 : LEntry := ⟨1, 0, 7⟩
 
 def hist : List Event :=
-  [.bump 1 1, .campaign 1, .rdy 1, .persist 1 1, .release 1 (.grant 1 1 1), .release 1 (.voteReq 1 1 0 0),
-   .bump 2 1, .grant 2 1, .rdy 2, .persist 2 1, .release 2 (.grant 1 2 1), .win 1 c3 [1, 2],
-   .leaderAppend 1 e1, .rdy 1, .persist 1 1, .sendApp 1 ⟨1, 1, 0, 0, [e1], 0⟩,
+  [.bump 1 1, .campaign 1, .rdy 1, .persist 1 1, .release 1 (.grant 1 1 1 {}), .release 1 (.voteReq 1 1 0 0),
+   .bump 2 1, .grant 2 1, .rdy 2, .persist 2 1, .release 2 (.grant 1 2 1 {}), .win 1 c3 [1, 2],
+   .leaderAppend 1 e1, .ackSelf 1 1, .rdy 1, .persist 1 1, .release 1 (.ack 1 1 1 []), .sendApp 1 ⟨1, 1, 0, 0, [e1], 0⟩,
    .recvApp 2 ⟨1, 1, 0, 0, [e1], 0⟩, .rdy 2, .persist 2 1, .release 2 (.ack 1 2 1 []),
    .commitLeader 1 1 c3 [1, 2], .sendSnap 1 1, .bump 3 1, .installSnap 3 1 1 1]
 
@@ -125,7 +125,7 @@ example : (match run init hist with
     | .ok s => ((s.nodes 3).log, (s.nodes 3).commit) | .error _ => ([], 99)) = ([e1], 1) := by decide
 
 /-- a snapshot beyond the leader's commit index cannot be produced -/
-example : (match run init (hist.take 21 ++ [.leaderAppend 1 ⟨1, 0, 8⟩, .sendSnap 1 2]) with
+example : (match run init (hist.take 23 ++ [.leaderAppend 1 ⟨1, 0, 8⟩, .sendSnap 1 2]) with
     | .ok _ => "sent" | .error _ => "refused") = "refused" := by decide
 
 end RaftProps.C15
